@@ -391,7 +391,37 @@ def r02_4(ctx):
     ctx.met('R02.4', CY, 'comparisons with tiny literals in the Cython kernels: %d' % m, None, 'the kernels are scale invariant', where='-', nontrivial=False)
 
 
+def r02_5(ctx):
+    """Parameter values, knots and basis values are C doubles throughout the evaluation kernels: a `float` (single
+    precision) argument or variable rounds the parameter before the span search while the values are computed with the
+    exact parameter in that span."""
+    n = 0
+    bad = []
+    for q, fi in sorted(ctx.prog.functions.items()):
+        if fi.unit.lang != 'cy' or not fi.unit.modname.startswith('pyiga.bspline_cy'):
+            continue
+        n += 1
+        for a in fi.node.args.args + fi.node.args.kwonlyargs:
+            if a.annotation is not None and src(a.annotation).strip("'\"").split('[')[0].strip() == 'float':
+                bad.append((fi, a.arg, a))
+        for s_ in ast.walk(fi.node):
+            if isinstance(s_, ast.AnnAssign) and src(s_.annotation).strip("'\"").split('[')[0].strip() == 'float':
+                bad.append((fi, src(s_.target), s_))
+    for fi, name, node in bad:
+        ctx.violated('R02.5', fi.qual, '%s: float' % name, fi.node,
+                     'declared as C float (single precision): the value is rounded to 24 bits on entry, so a parameter on or next to a knot that '
+                     'is not representable in float32 (0.7, 0.9) is located in the neighbouring span while the basis values are computed for '
+                     'the exact parameter -- first-active index and one-sided derivatives come out wrong')
+    if not bad:
+        ctx.met('R02.5', 'pyiga.bspline_cy', 'no single-precision declaration in %d kernels' % n, None, 'all reals are C doubles', where='pyiga/bspline_cy.pyx')
+    ctx.floor('R02.5', 'functions of bspline_cy examined', n, 3)
+
+
 def run(ctx):
+    # R02.6 = R07.9: evaluator result buffers do not take the dtype of the coefficient array
+    import rules.C07 as c07
+    ctx.shared(c07.r07_9, 'R07.9', 'R02.6')
+    r02_5(ctx)
     r02_4(ctx)
     r02_1(ctx)
     r02_2(ctx)
